@@ -77,7 +77,7 @@ theorem sorted_cancelBatches (p : Batch → Bool) {s : State} (hs : PoolSorted s
   insertAll_sorted _ hs
 
 theorem cleanupCalls_pool (s : State) : (cleanupCalls s).pool = s.pool := by
-  obtain ⟨fm, hfm⟩ := cleanupCalls_core s
+  obtain ⟨fm, er, hfm⟩ := cleanupCalls_core s
   rw [hfm]
   unfold cleanupCallsCore
   exact (foldl_refundCall _ _).1
@@ -109,7 +109,7 @@ theorem sorted_step {s : State} (hs : PoolSorted s.pool) (op : Op) : PoolSorted 
     simp only [step]; unfold doCancel
     repeat' split
     all_goals first | exact hs | exact Pairwise.sublist (erase_sublist) hs
-  | incFee id who t add =>
+  | incFee id who t add evm =>
     simp only [step]; unfold doIncFee
     repeat' split
     all_goals first | exact hs | exact insertDesc_sorted _ (Pairwise.sublist (erase_sublist) hs)
@@ -134,7 +134,7 @@ theorem sorted_step {s : State} (hs : PoolSorted s.pool) (op : Op) : PoolSorted 
     all_goals exact hs
   | observe h ev => exact sorted_observe hs h ev
   | exec n =>
-    simp only [step]; unfold doExec
+    simp only [step]; rw [doExec_flags]; unfold doExecFlags
     repeat' split
     all_goals first | exact hs | (simp only [refundCall, dropFromMsg]; exact hs)
   | setParams p =>
